@@ -347,10 +347,12 @@ class C09:
             if len(ks) > C09.MAX_K:
                 st = len(ks) / float(C09.MAX_K)
                 ks = sorted(set(int(i * st) for i in range(C09.MAX_K)))
+            count("events", N)
             for k in ks:
                 for kind in ("raise", "failed"):
                     w2, exc2, n2 = C09._one(ctx, case, raises=[k] if kind == "raise" else (), fails=[k] if kind == "failed" else ())
                     nf += 1
+                    count("events", n2)
                     if w2.fired:
                         count("fault:action_%s" % ("raises" if kind == "raise" else "returns_failed"))
                     o2 = C09._check(ctx, case, w2, exc2, "solve() with the action %s at evaluation %d of %d" % (
@@ -519,6 +521,7 @@ class C10:
                         raise OViolation(prop + ".disabled_target_influence", "%s: the knob trajectory / penalties differ when only the output of the disabled target %d is different"
                                          % (where, tt))
                     count("twin_calls_compared")
+            count("events", w.n_eval)
         except OViolation as v:
             return {"violation": dict(v.to_json(), step=i), "nontrivial": steps_checked > 0 or stats.get("disabled_knob_checks", 0) > 0,
                     "stats": stats, "extra": {"counters": {"jacobian_steps_checked_for_max_step": steps_checked}}, "trace_digest": None}
@@ -588,6 +591,7 @@ class C15:
                     if r:
                         count("take_best_" + r)
             rows_checked = check_reproducible(w, prop, "end of history", tainted)
+            count("events", w.n_eval)
         except OViolation as v:
             return {"violation": dict(v.to_json(), step=i), "nontrivial": True, "stats": stats,
                     "extra": {"counters": {"log_rows_reproduced": rows_checked}}, "trace_digest": None}
